@@ -101,6 +101,7 @@ func runC06(c *Check) {
 	c.hideOnlyMatched(byName)
 	c.keyedTagMatchesValue(compileTag)
 	c.rangeBoundUnits()
+	c.emptyOptionGuardCoversReads("C06-R10", "internal/driver", "applyFocus")
 }
 
 // pseudoFramesBeforeFilters (R3e): tagroot/tagleaf pseudo frames are ordinary frames for
